@@ -18,8 +18,9 @@ pub enum Family {
     TrapCluster,
     Motif,
     Mobility,
+    Jam,
 }
-pub const FAMILIES: [Family; 13] = [Family::Setup, Family::Random, Family::Sparse, Family::TrapDense, Family::Goal, Family::Cage, Family::Library, Family::Blocked, Family::Edge, Family::PushPull, Family::TrapCluster, Family::Motif, Family::Mobility];
+pub const FAMILIES: [Family; 14] = [Family::Setup, Family::Random, Family::Sparse, Family::TrapDense, Family::Goal, Family::Cage, Family::Library, Family::Blocked, Family::Edge, Family::PushPull, Family::TrapCluster, Family::Motif, Family::Mobility, Family::Jam];
 impl Family {
     pub fn name(self) -> &'static str {
         match self {
@@ -36,6 +37,7 @@ impl Family {
             Family::TrapCluster => "trap_cluster",
             Family::Motif => "motif",
             Family::Mobility => "mobility",
+            Family::Jam => "jam",
         }
     }
 }
@@ -616,6 +618,50 @@ fn mobility_board(rng: &mut Rng, to_move: Side) -> Board {
     b
 }
 
+/// a completely filled block of squares at an edge or in a corner (pieces of both sides, types
+/// drawn uniformly) on an otherwise nearly empty board: most pieces have no empty neighbour, the
+/// side to move is immobilised or can only push, and everything happens next to the board edge
+fn jam_board(rng: &mut Rng) -> Board {
+    let mut b = EMPTY;
+    let mut q = BTreeQuota::new();
+    let w = 2 + rng.below(3) as u8; // 2..4 files
+    let h = 2 + rng.below(4) as u8; // 2..5 ranks
+    let f0 = match rng.below(3) { 0 => 0, 1 => 8 - w, _ => rng.below((9 - w) as usize) as u8 };
+    let r0 = match rng.below(3) { 0 => 1, 1 => 9 - h, _ => 1 + rng.below((9 - h) as usize) as u8 };
+    for f in f0..f0 + w {
+        for r in r0..r0 + h {
+            if rng.chance(0.08) {
+                continue; // an occasional hole
+            }
+            let sq = Sq::new(f, r);
+            let side = if rng.chance(0.5) { Side::Gold } else { Side::Silver };
+            let k = KINDS[rng.below(6)];
+            if k == Kind::R && ((side == Side::Gold && r == 8) || (side == Side::Silver && r == 1)) {
+                continue;
+            }
+            if q.take(side, k) {
+                b[sq.0 as usize] = Some((side, k));
+            }
+        }
+    }
+    // a few pieces elsewhere, and at least one rabbit per side
+    let extra = rng.below(4);
+    for _ in 0..extra {
+        let side = if rng.chance(0.5) { Side::Gold } else { Side::Silver };
+        let k = KINDS[rng.below(6)];
+        if q.take(side, k) {
+            place_random(&mut b, rng, side, k, |sq| k != Kind::R || (2..=7).contains(&sq.rank()));
+        }
+    }
+    for side in [Side::Gold, Side::Silver] {
+        if count(&b, side, Kind::R) == 0 && q.take(side, Kind::R) {
+            place_random(&mut b, rng, side, Kind::R, |sq| (2..=7).contains(&sq.rank()));
+        }
+    }
+    clean_traps(&mut b);
+    b
+}
+
 pub const LIBRARY: &[&str] = &[
     // the smallest cage, as measured in the design phase (all-withheld state after 17 actions)
     "2g\n +-----------------+\n8|                 |\n7|                 |\n6|     x     x     |\n5| r   R           |\n4| R R             |\n3|     x     x     |\n2|                 |\n1|               E |\n +-----------------+\n   a b c d e f g h\n",
@@ -698,6 +744,7 @@ pub fn generate(rng: &mut Rng, family: Family) -> Start {
         Family::TrapCluster => (trap_cluster_board(rng), side),
         Family::Motif => motif_board(rng),
         Family::Mobility => (mobility_board(rng, side), side),
+        Family::Jam => (jam_board(rng), side),
         Family::Library => {
             let text = LIBRARY[rng.below(LIBRARY.len())];
             let (b, s, _) = parse_diagram(text).expect("library diagram");
